@@ -29,3 +29,18 @@ package main
 //@   valid p != nil && p.statuses != nil
 //@   ensures [failed_lookup_is_not_cached] err != nil ==> has(p.statuses, cID) == old(has(p.statuses, cID))
 //@   ensures [cached_answer_is_the_chains] err == nil && !old(has(p.statuses, cID)) ==> has(p.statuses, cID) && p.statuses[cID] == res0
+
+// "Payment-check errors and disabled payments never cause objects to be discarded": whether
+// payments are disabled is itself looked up on the FS chain (basic income rate 0). When that
+// look-up fails the checker does not know - and "not disabled" would let the unpaid check run on
+// what may be stale marks of a network whose payments are off. An unknown rate counts as
+// "disabled" for the epoch at hand (the check is made again on the next one).
+//@ ghost pred rateLookupFailed() bool
+//@ callrule c47_rate_lookup in (*paymentChecker).PaymentsDisabled
+//@   property C47
+//@   callee *).BasicIncomeRate
+//@   pureeffect
+//@   defines (err != nil) == rateLookupFailed()
+//@ func (*paymentChecker).PaymentsDisabled
+//@   property C47
+//@   ensures [unknown_rate_does_not_enable_the_unpaid_check] rateLookupFailed() ==> result
